@@ -16,7 +16,7 @@ THOROUGH_BUDGET = 1500
 RULE = ('one run = one simulated hand: configuration (12 predefined + 8 user-defined street lists, 2-9 players, '
         'stacks incl. ones below ante/blind/bring-in, ante/blind/straddle/post layouts, trimming on/off, modes, '
         'automation subset, 1-2 boards, int/Fraction/float/Decimal chips incl. int amounts inside Fraction stacks, '
-        'rake none/percentage+cap/no-flop-no-drop/per-pot, divmod default/exact/chip-denomination) and every agent '
+        'rake none/percentage+cap/no-flop-no-drop/per-pot/75 % (small pots raked away entirely), divmod default/exact/chip-denomination) and every agent '
         'decision drawn from the seeded choice sequence; conservation, non-negativity, payoff identity and a '
         'record-driven chip ledger are checked after every logged operation (also mid-cascade); a quarter of the runs are '
         '"quiet": no derived value is read before the hand is over (the ledger still follows the records), so that a value '
@@ -30,7 +30,7 @@ ASSUMPTIONS = [
     'K1 (all remaining players muck voluntarily: pot never awarded) is pinned by the repository test '
     'test_unknown_showdown and listed in known_findings.json',
 ]
-BIAS = dict(allow_mixed=True, rakes=('none', 'none', 'pct', 'nfnd', 'perpot'),
+BIAS = dict(allow_mixed=True, rakes=('none', 'none', 'pct', 'nfnd', 'perpot', 'high'),
             divmods=('default', 'default', 'exact', 'denom'), custom_num=1,
             stack_pool=(1, 1, 2, 2, 3, 5, 8, 13, 20, 40, 100, 200))
 
